@@ -197,11 +197,12 @@ PROPS['C15'] = dict(
 
 PROPS['C16'] = dict(
     level='proof',
-    technique='Verus contracts on the real text of the CKKS metadata algebra (checked_*, ensure_*, get_mul_*_params, offsets, set_meta_checked, CKKSInfos defaults)',
-    level_text='Unbounded proof over all usize inputs under the type invariant log_delta+log_budget <= 2^32: Ok exactly under the documented inequality, with the documented values; never success with log_delta+log_budget exceeding the stored precision; no overflow/panic on the admissible domain.',
-    level_note='anyhow::Error replaced by an opaque struct (R6); the newtype wrappers are restated (I-NEWTYPE); metadata updates inlined in the operations and all numerical slot semantics are undecided.',
-    units=[V('ckks_meta')],
-    trusted_base=VERUS_TRUST + ['I-NEWTYPE: TorusPrecision/Base2K (macro-generated in poulpy-core) restated in the unit; usize::next_multiple_of assumed specification'],
+    technique='Verus contracts on the real text of the CKKS metadata algebra (checked_*, ensure_*, get_mul_*_params, offsets, set_meta_checked, CKKSInfos defaults) and of the ciphertext additions / subtractions (ckks_{add,sub}_into_unsafe, ckks_{add,sub}_assign_unsafe) over an abstract torus algebra of the GLWE operations',
+    level_text='Unbounded proof over all usize inputs under the type invariant log_delta+log_budget <= 2^32: Ok exactly under the documented inequality, with the documented values; never success with log_delta+log_budget exceeding the stored precision; no overflow/panic on the admissible domain. Value tracking of ct+ct / ct-ct (out of place and in place), for EVERY metadata combination: val(dst) == val(a) +/- val(b) where val(t, budget) is the value a torus content t carries at a given budget -- the operand with more budget is shifted by exactly the budget difference plus the common offset, the resulting log_delta/log_budget are min(..)/min(..)-offset, Err exactly when the offset exceeds the smaller budget and then the metadata is untouched.',
+    level_note='anyhow::Error replaced by an opaque struct (R6); the newtype wrappers are restated (I-NEWTYPE); the value statement rests on four axioms about the GLWE operations on torus contents (a left shift by k with k bits less budget is the same value; values add; shift by 0 is the identity; addition commutes), truncation to the destination limb count ignored; the plaintext/constant variants, multiplication, rescale, rotation and all numerical slot semantics are undecided.',
+    units=[V('ckks_meta'), V('ckks_align')],
+    trusted_base=VERUS_TRUST + ['I-NEWTYPE: TorusPrecision/Base2K (macro-generated in poulpy-core) restated in the unit; usize::next_multiple_of assumed specification',
+                  'ckks_align: axioms AX-LSH, AX-ADD, AX-0, AX-COMM on the uninterpreted torus algebra (external_body proof functions); GLWE operation contracts on torus contents (their column-wise delegation is proved in unit glwe_ops)'],
     assumptions=['type invariant effective_k <= max_k <= 2^32 of every operand (precondition)'],
     remainder='decoded slot values vs complex arithmetic (f64/f128 + DFT); metadata updates inlined in ckks_add/sub/pow2/rescale bodies',
 )
